@@ -21,8 +21,10 @@ import (
 
 type decoder struct {
 	Name   string
-	Strict func(in *gio.DataInputX)
-	Deep   func(in *gio.DataInputX) // nil: same as Strict
+	// both return what was decoded (everything the call handed back), so that the decode server
+	// can fingerprint it: the result must not depend on how the input bytes were handed over
+	Strict func(in *gio.DataInputX) interface{}
+	Deep   func(in *gio.DataInputX) interface{} // nil: same as Strict
 	// NoNet: the decoder as run here is defined through Available() of the outer stream (the
 	// step stream: "until the input is used up"), which a connection cannot answer
 	NoNet bool
@@ -31,7 +33,7 @@ type decoder struct {
 var decoders []decoder
 var decoderIdx = map[string]int{}
 
-func reg(name string, strict func(in *gio.DataInputX), deep func(in *gio.DataInputX)) {
+func reg(name string, strict func(in *gio.DataInputX) interface{}, deep func(in *gio.DataInputX) interface{}) {
 	if _, dup := decoderIdx[name]; dup {
 		panic("duplicate decoder " + name)
 	}
@@ -61,35 +63,40 @@ var packNames = map[int16]string{
 
 var packCodes []int16
 
-// deepPack invokes the accessor that decodes the record blob a pack keeps undecoded.
-func deepPack(p pack.Pack) {
+// deepPack invokes the accessor that decodes the record blob a pack keeps undecoded and
+// returns the pack together with what the accessor handed back.
+func deepPack(p pack.Pack) interface{} {
+	var rec interface{}
 	switch q := p.(type) {
 	case *pack.StatErrorPack:
-		q.GetRecords()
+		rec = q.GetRecords()
 	case *pack.StatSqlPack:
-		q.GetRecords()
+		rec = q.GetRecords()
 	case *pack.StatHttpcPack:
-		q.GetRecords()
+		rec = q.GetRecords()
 	case *pack.StatGeneralPack:
-		q.GetDataTable()
+		rec = q.GetDataTable()
 	case *pack.StatServicePack:
 		// the record blob has no accessor on the pack; the package-level reader is the decoder
 		if q.Records != nil {
 			in := gio.NewDataInputX(q.Records)
 			n := int(in.ReadShort()) & 0xffff
+			var recs []interface{}
 			for i := 0; i < n; i++ {
-				pack.ReadRec(in)
+				recs = append(recs, pack.ReadRec(in))
 			}
+			rec = recs
 		}
 	case *pack.ZipPack:
-		q.GetRecords()
+		rec = q.GetRecords()
 	case *pack.LogSinkZipPack:
-		q.GetRecords()
+		rec = q.GetRecords()
 	}
+	return []interface{}{p, rec}
 }
 
 func init() {
-	reg("ReadValue", func(in *gio.DataInputX) { value.ReadValue(in) }, nil)
+	reg("ReadValue", func(in *gio.DataInputX) interface{} { return value.ReadValue(in) }, nil)
 
 	for code := range packNames {
 		packCodes = append(packCodes, code)
@@ -103,67 +110,81 @@ func init() {
 	}
 	for _, code := range packCodes {
 		reg("ToPack/"+packNames[code],
-			func(in *gio.DataInputX) { pack.ReadPack(in) },
-			func(in *gio.DataInputX) { deepPack(pack.ReadPack(in)) })
+			func(in *gio.DataInputX) interface{} { return pack.ReadPack(in) },
+			func(in *gio.DataInputX) interface{} { return deepPack(pack.ReadPack(in)) })
 	}
 	// not in the factory: decoded through its own Read after the type short
-	reg("Read/ProfileStepSplitPack", func(in *gio.DataInputX) {
+	reg("Read/ProfileStepSplitPack", func(in *gio.DataInputX) interface{} {
 		in.ReadShort()
-		pack.NewProfileStepSplitPack().Read(in)
+		p := pack.NewProfileStepSplitPack()
+		p.Read(in)
+		return p
 	}, nil)
 
 	for _, n := range []string{"MethodStepX", "SqlStepX", "ResultSetStep", "SocketStep", "HttpcStepX",
 		"ActiveStackStep", "MessageStep", "SecureMsgStep", "DBCStep"} {
-		reg("ReadStep/"+n, func(in *gio.DataInputX) { step.ReadStep(in) }, nil)
+		reg("ReadStep/"+n, func(in *gio.DataInputX) interface{} { return step.ReadStep(in) }, nil)
 	}
 	// the step stream: steps back to back until the input is used up (what a profile blob is)
-	reg("ReadStep/stream", func(in *gio.DataInputX) {
+	reg("ReadStep/stream", func(in *gio.DataInputX) interface{} {
+		var out []interface{}
 		for in.Available() > 0 {
-			step.ReadStep(in)
+			out = append(out, step.ReadStep(in))
 		}
+		return out
 	}, nil)
 	decoders[dec("ReadStep/stream")].NoNet = true
-	reg("Read/MessageStepX", func(in *gio.DataInputX) {
+	reg("Read/MessageStepX", func(in *gio.DataInputX) interface{} {
 		in.ReadByte()
-		step.NewMessageStepX().Read(in)
+		p := step.NewMessageStepX()
+		p.Read(in)
+		return p
 	}, nil)
-	reg("Read/SqlStep_3", func(in *gio.DataInputX) { step.NewSqlStep_3().Read(in) }, nil)
+	reg("Read/SqlStep_3", func(in *gio.DataInputX) interface{} {
+		p := step.NewSqlStep_3()
+		p.Read(in)
+		return p
+	}, nil)
 
-	reg("TxRecord", func(in *gio.DataInputX) { service.NewTxRecord().Read(in) }, nil)
+	reg("TxRecord", func(in *gio.DataInputX) interface{} {
+		p := service.NewTxRecord()
+		p.Read(in)
+		return p
+	}, nil)
 	for _, n := range []string{"WasService", "AppService", "WasService2"} {
-		reg("Service/"+n, func(in *gio.DataInputX) { service.ToObject(in) }, nil)
+		reg("Service/"+n, func(in *gio.DataInputX) interface{} { return service.ToObject(in) }, nil)
 	}
 
 	// primitives
-	prim := func(name string, f func(in *gio.DataInputX)) { reg("DataInputX."+name, f, nil) }
-	prim("ReadBool", func(in *gio.DataInputX) { in.ReadBool() })
-	prim("ReadByte", func(in *gio.DataInputX) { in.ReadByte() })
-	prim("ReadShort", func(in *gio.DataInputX) { in.ReadShort() })
-	prim("ReadUShort", func(in *gio.DataInputX) { in.ReadUShort() })
-	prim("ReadShortLittle", func(in *gio.DataInputX) { in.ReadShortLittle() })
-	prim("ReadInt3", func(in *gio.DataInputX) { in.ReadInt3() })
-	prim("ReadInt", func(in *gio.DataInputX) { in.ReadInt() })
-	prim("ReadUnsignedInt", func(in *gio.DataInputX) { in.ReadUnsignedInt() })
-	prim("ReadIntLittle", func(in *gio.DataInputX) { in.ReadIntLittle() })
-	prim("ReadLong5", func(in *gio.DataInputX) { in.ReadLong5() })
-	prim("ReadLong", func(in *gio.DataInputX) { in.ReadLong() })
-	prim("ReadFloat", func(in *gio.DataInputX) { in.ReadFloat() })
-	prim("ReadDouble", func(in *gio.DataInputX) { in.ReadDouble() })
-	prim("ReadDecimal", func(in *gio.DataInputX) { in.ReadDecimal() })
-	prim("ReadBlob", func(in *gio.DataInputX) { in.ReadBlob() })
-	prim("ReadText", func(in *gio.DataInputX) { in.ReadText() })
-	prim("ReadIntBytes", func(in *gio.DataInputX) { in.ReadIntBytes() })
-	prim("ReadIntBytesLimit", func(in *gio.DataInputX) { in.ReadIntBytesLimit(1 << 20) })
-	prim("ReadShortBytes", func(in *gio.DataInputX) { in.ReadShortBytes() })
-	prim("ReadTextShortLength", func(in *gio.DataInputX) { in.ReadTextShortLength() })
-	prim("ReadShortArray", func(in *gio.DataInputX) { in.ReadShortArray() })
-	prim("ReadIntArray", func(in *gio.DataInputX) { in.ReadIntArray() })
-	prim("ReadLongArray", func(in *gio.DataInputX) { in.ReadLongArray() })
-	prim("ReadFloatArray", func(in *gio.DataInputX) { in.ReadFloatArray() })
-	prim("ReadDoubleArray", func(in *gio.DataInputX) { in.ReadDoubleArray() })
-	prim("ReadTextArray", func(in *gio.DataInputX) { in.ReadTextArray() })
-	prim("ReadDecimalArray", func(in *gio.DataInputX) { in.ReadDecimalArray() })
-	prim("ReadDecimalArrayInt", func(in *gio.DataInputX) { in.ReadDecimalArrayInt() })
+	prim := func(name string, f func(in *gio.DataInputX) interface{}) { reg("DataInputX."+name, f, nil) }
+	prim("ReadBool", func(in *gio.DataInputX) interface{} { return in.ReadBool() })
+	prim("ReadByte", func(in *gio.DataInputX) interface{} { return in.ReadByte() })
+	prim("ReadShort", func(in *gio.DataInputX) interface{} { return in.ReadShort() })
+	prim("ReadUShort", func(in *gio.DataInputX) interface{} { return in.ReadUShort() })
+	prim("ReadShortLittle", func(in *gio.DataInputX) interface{} { return in.ReadShortLittle() })
+	prim("ReadInt3", func(in *gio.DataInputX) interface{} { return in.ReadInt3() })
+	prim("ReadInt", func(in *gio.DataInputX) interface{} { return in.ReadInt() })
+	prim("ReadUnsignedInt", func(in *gio.DataInputX) interface{} { return in.ReadUnsignedInt() })
+	prim("ReadIntLittle", func(in *gio.DataInputX) interface{} { return in.ReadIntLittle() })
+	prim("ReadLong5", func(in *gio.DataInputX) interface{} { return in.ReadLong5() })
+	prim("ReadLong", func(in *gio.DataInputX) interface{} { return in.ReadLong() })
+	prim("ReadFloat", func(in *gio.DataInputX) interface{} { return in.ReadFloat() })
+	prim("ReadDouble", func(in *gio.DataInputX) interface{} { return in.ReadDouble() })
+	prim("ReadDecimal", func(in *gio.DataInputX) interface{} { return in.ReadDecimal() })
+	prim("ReadBlob", func(in *gio.DataInputX) interface{} { return in.ReadBlob() })
+	prim("ReadText", func(in *gio.DataInputX) interface{} { return in.ReadText() })
+	prim("ReadIntBytes", func(in *gio.DataInputX) interface{} { return in.ReadIntBytes() })
+	prim("ReadIntBytesLimit", func(in *gio.DataInputX) interface{} { return in.ReadIntBytesLimit(1 << 20) })
+	prim("ReadShortBytes", func(in *gio.DataInputX) interface{} { return in.ReadShortBytes() })
+	prim("ReadTextShortLength", func(in *gio.DataInputX) interface{} { return in.ReadTextShortLength() })
+	prim("ReadShortArray", func(in *gio.DataInputX) interface{} { return in.ReadShortArray() })
+	prim("ReadIntArray", func(in *gio.DataInputX) interface{} { return in.ReadIntArray() })
+	prim("ReadLongArray", func(in *gio.DataInputX) interface{} { return in.ReadLongArray() })
+	prim("ReadFloatArray", func(in *gio.DataInputX) interface{} { return in.ReadFloatArray() })
+	prim("ReadDoubleArray", func(in *gio.DataInputX) interface{} { return in.ReadDoubleArray() })
+	prim("ReadTextArray", func(in *gio.DataInputX) interface{} { return in.ReadTextArray() })
+	prim("ReadDecimalArray", func(in *gio.DataInputX) interface{} { return in.ReadDecimalArray() })
+	prim("ReadDecimalArrayInt", func(in *gio.DataInputX) interface{} { return in.ReadDecimalArrayInt() })
 
 	regSM()
 }
@@ -172,14 +193,18 @@ func init() {
 type outcome struct {
 	Panicked bool
 	Msg      string
-	Consumed bool // the stream reports no unread byte (meaningful after a normal return)
+	Consumed bool        // the stream reports no unread byte (meaningful after a normal return)
+	Result   interface{} // what the decoder handed back (nil after a panic)
 }
 
+// runDecode decodes the byte string b exactly as it is handed over: the stream is created on
+// b itself, spare capacity behind len(b) included (inmode.go decides what lies there).
 func runDecode(d *decoder, deep bool, b []byte) (o outcome) {
-	in := gio.NewDataInputX(b[:len(b):len(b)])
+	in := gio.NewDataInputX(b)
 	defer func() {
 		if e := recover(); e != nil {
 			o.Panicked = true
+			o.Result = nil
 			o.Msg = fmt.Sprint(e)
 			if len(o.Msg) > 200 {
 				o.Msg = o.Msg[:200]
@@ -187,9 +212,9 @@ func runDecode(d *decoder, deep bool, b []byte) (o outcome) {
 		}
 	}()
 	if deep && d.Deep != nil {
-		d.Deep(in)
+		o.Result = d.Deep(in)
 	} else {
-		d.Strict(in)
+		o.Result = d.Strict(in)
 	}
 	o.Consumed = in.Available() == 0
 	return
